@@ -45,3 +45,16 @@ C(EP + ".visit_start_tag", params={"self": "rec[%s]" % EP, "kind": "str", "token
   ],
   raises={"KeyError": {}},
   result="any", serves=["C18"], kind="K1")
+
+C(EP + ".__init__", params={"self": "rec[%s]" % EP, "stream": "any", "default_namespaces": NSMAP,
+                            "restricted_namespace": "bool"},
+  ensures=[
+      # the root scope is the parser's OWN copy of the defaults: declarations met while parsing one
+      # document must never be written into the (class-level, shared) table they start from
+      "len(self.namespaces) == 1",
+      "self.namespaces[0] is not default_namespaces",
+      "same_map(self.namespaces[0], default_namespaces)",
+      "same_map(default_namespaces, old(default_namespaces))",
+      "self.restricted_namespace == restricted_namespace",
+  ],
+  result="none", serves=["C18", "C03", "C14"])
